@@ -176,6 +176,30 @@ def sc_speedup(d, n, fit_idx, pred_idx, weights, nn=None, prior=0.0, gamma=0.5):
     d.witness(True, "ran")
 
 
+def sc_prefitted(d, n):
+    """a classifier that was fitted before it is wrapped (the wrapper itself is never fitted): with use_speed_up=True the three
+    prediction methods must return what they return without the speed-up - labels, probabilities, frequencies"""
+    from skactiveml.pool.utils import IndexClassifierWrapper
+    from skactiveml.classifier import ParzenWindowClassifier
+    xs = [d.fl(f"x{i}", lo=-2.0, hi=2.0) for i in range(n)]
+    X = d.arr([[x] for x in xs], shape=(n, 1))
+    lab = [d.choose(f"label{i}", [-1, 0, 1]) for i in range(n)]
+    y = d.arr([NAN if k < 0 else float(k) for k in lab])
+    idx = d.arr(list(range(n)), dtype=int)
+    outs = []
+    for speed in (False, True):
+        clf = ParzenWindowClassifier(classes=[0.0, 1.0], metric="rbf", metric_dict={"gamma": 0.5}, random_state=0).fit(X, y)
+        w = IndexClassifierWrapper(clf, X, y, use_speed_up=speed)
+        outs.append((w.predict(idx), w.predict_proba(idx), w.predict_freq(idx)))
+    for k, name in enumerate(("labels", "probabilities", "frequencies")):
+        a, b = outs[0][k], outs[1][k]
+        d.prove(tuple(np.shape(a)) == tuple(np.shape(b)), f"prefitted_speed_up_same_shape:{name}",
+                info=dict(without=tuple(np.shape(a)), with_speed_up=tuple(np.shape(b))))
+        if tuple(np.shape(a)) == tuple(np.shape(b)) and name != "labels":
+            d.prove(d.eq_arr(a, b, 1e-12), f"prefitted_speed_up_same_values:{name}")
+    d.witness(True, "ran")
+
+
 UNITS = ["skactiveml.pool.utils:IndexClassifierWrapper.__init__", "skactiveml.pool.utils:IndexClassifierWrapper.fit",
          "skactiveml.pool.utils:IndexClassifierWrapper.partial_fit", "skactiveml.pool.utils:IndexClassifierWrapper.precompute",
          "skactiveml.pool.utils:IndexClassifierWrapper.predict_proba", "skactiveml.pool.utils:IndexClassifierWrapper.predict_freq",
@@ -215,6 +239,8 @@ def _cfg_speed(tier):
 HARNESSES = [
     dual_harness("index_wrapper_sequences", sc_wrapper, _cfg_wrapper, UNITS[:3], required_witnesses=("ran",), max_paths=60000),
     dual_harness("pwc_speed_up", sc_speedup, _cfg_speed, UNITS[:2] + UNITS[3:], required_witnesses=("ran",)),
+    dual_harness("pwc_speed_up_prefitted", sc_prefitted, lambda tier: [dict(n=2)], UNITS[:1] + UNITS[4:] + ["skactiveml.pool.utils:IndexClassifierWrapper.predict"],
+                 required_witnesses=("ran",)),
 ]
 BOUNDS = dict(quick="|X| = 3, sequences of 1 (with symbolic label/weight overrides) or 2 (without) operations after the first fit, "
                     "every choice of operation, index set (3 menus incl. duplicates), use_base_clf / set_base_clf, label and weight overrides, for wrapped classifiers with / without native "
